@@ -41,6 +41,9 @@ THEOREMS = [
     'Nb.C03.parrec_whole_sequential',
     'Nb.C03.parrec_indices',
     'Nb.C03.parrec_unscaled_eq',
+    'Nb.C03.parrec_guard_from_source',
+    'Nb.C03.parrec_guard_exact',
+    'Nb.C03.parrec_fast_path_taken_iff_correct',
     'Nb.C03.minc_scale_alongside',
     'Nb.C03.ecat_array_frames',
     'Nb.C03.ecat_frames',
@@ -67,6 +70,147 @@ RULE = ('one stream per proxy implementation (NIfTI-1 single/pair, NIfTI-2, Anal
         'bounds, Ellipsis, newaxis, out-of-range ints) x mmap x keep_file_open x compression x indexed_gzip flag x '
         '{path, open file object at a random position}, an optional earlier read on the same proxy; exhaustive frame-axis '
         'slices for ECAT. Non-trivial = index is not all-full-slices; distinct by (format, build, config, index).')
+
+# ------------------------------------------------------------------ regenerated from the working tree
+
+GEN_PARREC = os.path.join(os.path.dirname(os.path.dirname(os.path.dirname(os.path.abspath(__file__)))),
+                          'lean', 'NibabelModel', 'Generated', 'C03Parrec.lean')
+
+
+class Untranslatable(Exception):
+    pass
+
+
+class NpExpr:
+    """Translate a small NumPy expression over ONE integer vector (named `vec`) and integer constants into core
+    Lean over `List Int` (vocabulary `Nb.C03.Np`: diff, item, any, all).  Kinds: 'v' vector of Int, 'b' vector of
+    Bool, 's' Int scalar, 'p' Bool scalar.  Anything else raises Untranslatable (-> regeneration fails -> reported)."""
+    CMP = {'NotEq': '!=', 'Eq': '==', 'Lt': '<', 'LtE': '<=', 'Gt': '>', 'GtE': '>='}
+
+    def __init__(self, vec):
+        self.vec = vec
+
+    def tr(self, n):
+        import ast
+        if isinstance(n, ast.BoolOp):
+            parts = [self.want(v, 'p') for v in n.values]
+            return '(' + (' || ' if isinstance(n.op, ast.Or) else ' && ').join(parts) + ')', 'p'
+        if isinstance(n, ast.UnaryOp) and isinstance(n.op, ast.Not):
+            return '(!' + self.want(n.operand, 'p') + ')', 'p'
+        if isinstance(n, ast.UnaryOp) and isinstance(n.op, ast.USub) and isinstance(n.operand, ast.Constant) \
+                and type(n.operand.value) is int:
+            return '(%d : Int)' % -n.operand.value, 's'
+        if isinstance(n, ast.Constant) and type(n.value) is int:
+            return '(%d : Int)' % n.value, 's'
+        if isinstance(n, ast.Name) and n.id == self.vec:
+            return self.vec, 'v'
+        if isinstance(n, ast.Subscript):
+            base, k = self.tr(n.value)
+            idx, ki = self.tr(n.slice)
+            if k != 'v' or ki != 's':
+                raise Untranslatable(ast.dump(n))
+            return f'(Np.item {base} {idx})', 's'
+        if isinstance(n, ast.Compare) and len(n.ops) == 1:
+            op = self.CMP.get(type(n.ops[0]).__name__)
+            l, kl = self.tr(n.left)
+            r, kr = self.tr(n.comparators[0])
+            if op is None or kr != 's':
+                raise Untranslatable(ast.dump(n))
+            if kl == 's':
+                return f'(decide ({l} {op} {r}))' if op not in ('!=', '==') else f'({l} {op} {r})', 'p'
+            if kl == 'v':
+                body = f'decide (x {op} {r})' if op not in ('!=', '==') else f'x {op} {r}'
+                return f'({l}.map (fun x => {body}))', 'b'
+            raise Untranslatable(ast.dump(n))
+        if isinstance(n, ast.BinOp) and type(n.op).__name__ in ('Add', 'Sub', 'Mult'):
+            l, kl = self.tr(n.left)
+            r, kr = self.tr(n.right)
+            if kl == kr == 's':
+                return f'({l} {dict(Add="+", Sub="-", Mult="*")[type(n.op).__name__]} {r})', 's'
+            raise Untranslatable(ast.dump(n))
+        if isinstance(n, ast.Call) and not n.keywords and len(n.args) == 1:
+            f = n.func
+            name = f.attr if (isinstance(f, ast.Attribute) and isinstance(f.value, ast.Name) and f.value.id == 'np') \
+                else (f.id if isinstance(f, ast.Name) else None)
+            a, ka = self.tr(n.args[0])
+            if name == 'diff' and ka == 'v':
+                return f'(Np.diff {a})', 'v'
+            if name in ('any', 'all') and ka == 'b':
+                return f'(Np.{name} {a})', 'p'
+            if name == 'len' and ka == 'v':
+                return f'(({a}.length : Nat) : Int)', 's'
+        raise Untranslatable(ast.dump(n))
+
+    def want(self, n, kind):
+        t, k = self.tr(n)
+        if k != kind:
+            import ast
+            raise Untranslatable(f'kind {k} where {kind} expected: ' + ast.dump(n))
+        return t
+
+
+def parrec_fast_path_source():
+    """(guard expression AST, its text, offset constant, order constant) of `PARRECArrayProxy._get_unscaled` in the
+    working tree; the STRUCTURE of the function is checked on the way (Untranslatable otherwise)."""
+    import ast
+    src = open(os.path.join(REPO, 'nibabel', 'parrec.py')).read()
+    tree = ast.parse(src)
+    cls = [n for n in tree.body if isinstance(n, ast.ClassDef) and n.name == 'PARRECArrayProxy']
+    fn = [n for n in cls[0].body if isinstance(n, ast.FunctionDef) and n.name == '_get_unscaled'][0]
+    body = [st for st in fn.body if not (isinstance(st, ast.Expr) and isinstance(st.value, ast.Constant))]
+    if len(body) != 3:
+        raise Untranslatable('_get_unscaled: expected assignment, if/elif, with')
+    asg, iff, tail = body
+    if not (isinstance(asg, ast.Assign) and ast.unparse(asg) == 'indices = self._slice_indices'):
+        raise Untranslatable('first statement: ' + ast.unparse(asg))
+    if not (isinstance(iff, ast.If) and ast.unparse(iff.test) == 'slicer == ()' and len(iff.orelse) == 1
+            and isinstance(iff.orelse[0], ast.If) and not iff.orelse[0].orelse):
+        raise Untranslatable('if/elif structure')
+    whole = ast.unparse(iff.body)
+    if 'rec_data = rec_data[..., indices]' not in whole or "return rec_data.reshape(self._shape, order='F')" not in whole:
+        raise Untranslatable('whole-array branch: ' + whole)
+    el = iff.orelse[0]
+    if [ast.unparse(st) for st in el.body] != ['return self._get_unscaled(())[slicer]']:
+        raise Untranslatable('elif body: ' + ast.unparse(el.body))
+    if not (isinstance(tail, ast.With) and len(tail.body) == 1 and isinstance(tail.body[0], ast.Return)):
+        raise Untranslatable('fast path: ' + ast.unparse(tail))
+    call = tail.body[0].value
+    if not (isinstance(call, ast.Call) and ast.unparse(call.func) == 'fileslice' and not call.keywords
+            and [ast.unparse(a) for a in call.args[:4]] == ['fileobj', 'slicer', 'self._shape', 'self._dtype']
+            and len(call.args) == 6 and isinstance(call.args[4], ast.Constant) and type(call.args[4].value) is int
+            and call.args[4].value >= 0 and isinstance(call.args[5], ast.Constant) and call.args[5].value in ('F', 'C')):
+        raise Untranslatable('fileslice call: ' + ast.unparse(call))
+    return el.test, ast.unparse(el.test), call.args[4].value, call.args[5].value
+
+
+def regen():
+    """Generated/C03Parrec.lean: the fast-path guard of `PARRECArrayProxy._get_unscaled` translated from the working
+    tree + the offset/order constants of its `fileslice` call (theorem `Nb.C03.parrec_guard_from_source`)."""
+    from common import write_if_changed
+    test, text, off, order = parrec_fast_path_source()
+    lean, kind = NpExpr('indices').tr(test)
+    if kind != 'p':
+        raise Untranslatable('guard is not a Bool scalar')
+    out = f"""import NibabelModel.Model.C03
+/-! GENERATED by harness/props/c03.py regen() from the working tree of nibabel (nibabel/parrec.py,
+    `PARRECArrayProxy._get_unscaled`). Do not edit: rewritten on every run of `./check C03`. Core Lean only. -/
+namespace Nb.Gen.C03
+open Nb Nb.C03
+
+/-- the test of the `elif` (True = fall back to "read everything, reorder, then index"):
+    `{text}` -/
+def parrecFallback (indices : List Int) : Bool :=
+  {lean}
+
+/-- `fileslice(fileobj, slicer, self._shape, self._dtype, {off}, '{order}')` -/
+def parrecFastOffset : Nat := {off}
+def parrecFastOrder : Nb.C06.Order := .{order}
+
+end Nb.Gen.C03
+"""
+    write_if_changed(GEN_PARREC, out)
+    return ['Generated.C03Parrec.parrecFallback', 'Generated.C03Parrec.parrecFastOffset/Order']
+
 
 logging.getLogger('nibabel.global').setLevel(logging.CRITICAL)   # header-check chatter on odd offsets
 
@@ -683,9 +827,39 @@ def build_ecat(b):
 
 # ---------------------------------------------------------------- PAR/REC
 
+def parrec_kept(rows, ns, strict):
+    """INDEPENDENT statement of which REC rows make up the loaded array, in output order (slice fastest).
+    `rows`: [slice number, dynamic number] per REC row, as stored.
+    lax   (strict_sort=False, documented: "volumes are sorted by the order in which the slices appear in the PAR
+          file"): the k-th occurrence of slice number s is slice s of volume k; volumes that have every slice.
+    strict: volumes are the dynamics (label 'dynamic scan number'), ordered by label; those that have every slice.
+    Returns (indices, nvols); raises ValueError for the regions of the OPEN C20 findings (no complete volume /
+    get_data_shape over-counting the complete volumes), which this property's generator stays out of."""
+    occ, where_lax, where_dyn = {}, {}, {}
+    for r, (s, d) in enumerate(rows):
+        k = occ.get(s, 0)
+        occ[s] = k + 1
+        where_lax[(s, k)] = r
+        where_dyn[(s, d)] = r
+    if sorted(occ) != list(range(1, ns + 1)):
+        raise ValueError('a slice number never occurs')
+    nv_count = min(occ.values())
+    if strict:
+        dyns = sorted({d for _, d in rows})
+        vols = [d for d in dyns if all((s, d) in where_dyn for s in range(1, ns + 1))]
+        where = where_dyn
+    else:
+        vols = list(range(nv_count))
+        where = where_lax
+    if not vols or len(vols) != nv_count:
+        raise ValueError('outside the region where the header counts the complete volumes correctly')
+    return [where[(s, v)] for v in vols for s in range(1, ns + 1)], len(vols)
+
+
 def build_parrec(b):
-    """b: {'nx','ny','nslices','ndyn','rows' (list of [slice, dyn] in REC order) | None, 'scaled' bool, 'seed',
-           'comp', 'trunc' (number of REC rows dropped at the end; rows sequential only)}"""
+    """b: {'nx','ny','nslices','ndyn','rows' (list of [slice, dyn] in REC order) | None, 'scaled' bool, 'seed', 'comp',
+           'drop' (positions in `rows` of image lines/REC slices that were never written: a TRUNCATED recording, needs
+           'permit'), 'permit' (permit_truncated), 'strict' (strict_sort), 'scaling' ('dv' | 'fp')}"""
     rng = random.Random(b['seed'])
     nx, ny, ns, nd = b['nx'], b['ny'], b['nslices'], b['ndyn']
     lines = open(os.path.join(REPO, 'nibabel', 'tests', 'data', 'phantom_varscale.PAR')).read().split('\n')
@@ -696,6 +870,9 @@ def build_parrec(b):
             ('.    Max. number of dynamics             :   %d' % nd) if l.startswith('.    Max. number of dynamics') else l
             for l in head]
     rows = b.get('rows') or [[s + 1, d + 1] for d in range(nd) for s in range(ns)]
+    drop = set(b.get('drop') or ())
+    rows = [r for i, r in enumerate(rows) if i not in drop]
+    strict, permit, scaling = bool(b.get('strict')), bool(b.get('permit')), b.get('scaling', 'dv')
     S = nx * ny
     slopes, inters = [], []
     body = []
@@ -709,8 +886,18 @@ def build_parrec(b):
         else:
             ri, rs = 0.0, 1.0
         f[11], f[12] = repr(ri), repr(rs)
-        inters.append(float(repr(ri)))
-        slopes.append(float(repr(rs)))
+        ri, rs = float(repr(ri)), float(repr(rs))
+        if scaling == 'fp':
+            # FP = DV / (RS * SS): slope 1/SS, intercept RI/(RS*SS)   (parrec.py get_data_scaling)
+            ss = round(rng.uniform(0.002, 0.9), 6)
+            f[13] = repr(ss)
+            ss = np.float64(float(repr(ss)))
+            with np.errstate(all='ignore'):
+                slopes.append(float(np.float64(1.0) / ss))
+                inters.append(float(np.float64(ri) / (np.float64(rs) * ss)))
+        else:
+            inters.append(ri)
+            slopes.append(rs)
         body.append('  ' + '  '.join(f))
     stem = os.path.join(tmpdir(), 'p%d' % next_id())
     with open(stem + '.PAR', 'w') as f:
@@ -720,10 +907,9 @@ def build_parrec(b):
     comp = b.get('comp', 'plain')
     rpath = stem + '.REC' + COMP_EXT[comp]
     comp_write(rpath, rawflat.tobytes())
-    # independent decode: sorted position k = slice + ns*dyn  -> REC row
-    where = {(s, d): r for r, (s, d) in enumerate(rows)}
-    indices = [where[(s + 1, d + 1)] for d in range(nd) for s in range(ns)]
-    shape = (nx, ny, ns) + ((nd,) if nd > 1 else ())
+    # independent decode: output position k (slice fastest, then volume) -> REC row
+    indices, nv = parrec_kept(rows, ns, strict)
+    shape = (nx, ny, ns) + ((nv,) if nv > 1 else ())
     rec = np.frombuffer(read_plain(rpath), dtype='<u2', count=S * nrec).reshape((nx, ny, nrec), order='F')
     raw = rec[:, :, indices].reshape(shape, order='F')
     recq = np.arange(S * nrec).reshape((nx, ny, nrec), order='F')
@@ -739,18 +925,33 @@ def build_parrec(b):
         with np.errstate(all='ignore'):
             alts.append((k, raw.astype(np.float64) * slopes[indices[k]] + inters[indices[k]]))
     files = {'header': stem + '.PAR', 'image': rpath}
+    kw = {}
+    if permit:
+        kw['permit_truncated'] = True
+    if strict:
+        kw['strict_sort'] = True
+    if scaling != 'dv' or b.get('scaling'):
+        kw['scaling'] = scaling
 
     def opener(cfg):
         import nibabel as nib
         from nibabel import parrec
         if cfg['src'] == 'path' and comp == 'plain':
-            img = nib.load(files['header'], mmap=cfg['mmap']) if cfg.get('via') == 'load' else \
-                parrec.PARRECImage.from_filename(files['header'], mmap=cfg['mmap'])
+            img = nib.load(files['header'], mmap=cfg['mmap'], **kw) if cfg.get('via') == 'load' else \
+                parrec.PARRECImage.from_filename(files['header'], mmap=cfg['mmap'], **kw)
             assert isinstance(img.dataobj, parrec.PARRECArrayProxy)
             return img.dataobj
-        hdr = parrec.PARRECHeader.from_fileobj(open(files['header']))
+        if cfg['src'] != 'path' and cfg.get('via') == 'load':
+            fm = parrec.PARRECImage.make_file_map()
+            hf = open(files['header'], 'rt')
+            Keep.objs.append(hf)
+            fm['header'].fileobj = hf
+            fm['image'].fileobj = make_fobj(files['image'], cfg['src'], cfg)
+            img = parrec.PARRECImage.from_file_map(fm, mmap=cfg['mmap'], **kw)
+            return img.dataobj
+        hdr = parrec.PARRECHeader.from_fileobj(open(files['header']), permit_truncated=permit, strict_sort=strict)
         src = files['image'] if cfg['src'] == 'path' else make_fobj(files['image'], cfg['src'], cfg)
-        return parrec.PARRECArrayProxy(src, hdr, mmap=cfg['mmap'])
+        return parrec.PARRECArrayProxy(src, hdr, mmap=cfg['mmap'], scaling=scaling)
     bt = Built('parrec', shape, 'F', full, qarr, slotarr, alts, opener, None, files)
     bt.indices, bt.S = indices, S
     return bt
@@ -1390,6 +1591,37 @@ def gen_ecat(rng, out, nbuilds, nidx, exhaustive):
             out.append(mk_case(b4, cfg, (0, Ellipsis, f, None), 'ecat-frame-axis'))
 
 
+def parrec_drop(rng, rows, ns, nd, strict):
+    """positions (in `rows`) of the image lines a truncated recording lost; None if nothing suitable.
+    The lost slices are NOT restricted to the end of the REC file: the kept indices may be ascending with a hole,
+    a prefix, or out of order.  Stays inside the region where `parrec_kept` is defined (see there)."""
+    n = len(rows)
+    mode = rng.choice(['tail', 'vol-end', 'vol-any', 'random', 'whole-vol'])
+    by_dyn = {}
+    for i, (s, d) in enumerate(rows):
+        by_dyn.setdefault(d, []).append(i)
+    dyns = sorted(by_dyn)
+    if mode == 'tail':                       # the scan was stopped: the last few lines are missing
+        drop = list(range(n - rng.randrange(1, max(2, ns)), n))
+    elif mode == 'vol-end':                  # the last slice(s) of one volume that is not the last one
+        d = rng.choice(dyns[:-1] or dyns)
+        drop = by_dyn[d][-rng.randrange(1, max(2, ns)):]
+    elif mode == 'vol-any':                  # any slices of one volume
+        d = rng.choice(dyns)
+        drop = rng.sample(by_dyn[d], rng.randrange(1, len(by_dyn[d]) + 1))
+    elif mode == 'whole-vol':
+        drop = list(by_dyn[rng.choice(dyns)])
+    else:
+        drop = rng.sample(range(n), rng.randrange(1, min(n, 4)))
+    drop = sorted(set(drop))
+    left = [r for i, r in enumerate(rows) if i not in set(drop)]
+    try:
+        parrec_kept(left, ns, strict)
+    except ValueError:
+        return None
+    return drop
+
+
 def gen_parrec(rng, out, nbuilds, nidx):
     for _ in range(nbuilds):
         ns, nd = rng.choice([1, 2, 3, 4]), rng.choice([1, 1, 2, 3])
@@ -1413,6 +1645,50 @@ def gen_parrec(rng, out, nbuilds, nidx):
             if rng.random() < 0.08:
                 idx = ()
             out.append(mk_case(b, cfg, idx, 'parrec'))
+
+
+def gen_parrec_opts(rng, out, nbuilds, nidx):
+    """PAR/REC loaded with non-default options: permit_truncated (with TRUNCATED recordings whose lost slices sit
+    anywhere in the REC file), strict_sort, scaling='fp' — the index vector handed to the proxy is then a proper
+    subset of the REC slices (ascending with holes, or unordered)."""
+    for _ in range(nbuilds):
+        ns, nd = rng.choice([1, 2, 2, 3, 4]), rng.choice([2, 3, 3, 4])
+        full_rows = [[s + 1, d + 1] for d in range(nd) for s in range(ns)]
+        order = rng.choice(['volume-major', 'volume-major', 'shuffled', 'slice-major', 'reversed-vols'])
+        if order == 'shuffled':
+            pairs = list(full_rows)
+            rng.shuffle(pairs)
+            seen, full_rows = {}, []
+            for s, _ in pairs:
+                seen[s] = seen.get(s, 0) + 1
+                full_rows.append([s, seen[s]])
+        elif order == 'slice-major':
+            full_rows = [[s + 1, d + 1] for s in range(ns) for d in range(nd)]
+        elif order == 'reversed-vols':        # dynamics stored last-first: strict and lax sorting differ
+            full_rows = [[s + 1, d + 1] for d in reversed(range(nd)) for s in range(ns)]
+        strict = rng.random() < 0.5
+        b = {'fmt': 'parrec', 'nx': rng.choice([1, 2, 3, 4]), 'ny': rng.choice([1, 2, 3]), 'nslices': ns, 'ndyn': nd,
+             'rows': full_rows, 'scaled': True, 'comp': rng.choice(['plain', 'plain', 'plain', 'gz']),
+             'seed': rng.randrange(10 ** 6), 'strict': strict, 'permit': True,
+             'scaling': rng.choice(['dv', 'dv', 'fp'])}
+        if rng.random() < 0.8:
+            drop = parrec_drop(rng, full_rows, ns, nd, strict)
+            if drop:
+                b['drop'] = drop
+        if not b.get('drop') and rng.random() < 0.5:
+            b['permit'] = False
+        try:
+            bt = get_built(b)
+        except Exception:
+            raise
+        shape = bt.shape
+        for _ in range(nidx):
+            cfg = rand_cfg(rng, 'parrec', b['comp'])
+            idx = rand_index(rng, shape, rng.random() < 0.08)
+            if rng.random() < 0.08:
+                idx = ()
+            out.append(mk_case(b, cfg, idx, 'parrec-truncated' if b.get('drop') else 'parrec-opts',
+                               pre=rand_index(rng, shape) if rng.random() < 0.15 else None))
 
 
 def gen_minc(rng, out, nbuilds, nidx):
@@ -1467,6 +1743,7 @@ def cases(rng, tier):
     gen_generic(rng, out, 30 * k, 14)
     gen_afni(rng, out, 8 * k, 14)
     gen_parrec(rng, out, 8 * k, 14)
+    gen_parrec_opts(rng, out, 10 * k, 12)
     gen_minc(rng, out, 10 * k, 14)
     gen_frozen(rng, out, 40 * k)
     return out
